@@ -811,3 +811,63 @@ add("splitLoopGroup", "Split", ["C09", "C17"], "acryo/loader/_group.py", "const"
     pattern(_split_loop("LoaderGroup.average_split")))
 add("splitSqueeze", "Split", ["C09"], "acryo/loader/_base.py", "expr", [("squeeze", B), ("n_set", I)],
     lambda t: first(func(t, "LoaderBase.average_split"), ast.If, lambda n: "squeeze" in ast.unparse(n.test)).test)
+
+
+# ==========================================================================================
+# C17  Fourier shell correlation
+# ==========================================================================================
+add("fscLabel", "Fsc", ["C17"], "acryo/_utils.py", "expr", [("r", R), ("dfreq", R)],
+    lambda t: assign_rhs(func(t, "fourier_shell_correlation"), "labels"))
+add("fscShellFreq", "Fsc", ["C17"], "acryo/_utils.py", "expr", [("i", I), ("dfreq", R)],
+    lambda t: assign_rhs(func(t, "fourier_shell_correlation"), "freq"),
+    subst={"np.arange(len(out))": "i"})
+
+
+def _fsc_structure(t):
+    fn = func(t, "fourier_shell_correlation")
+    chk = {
+        "freqs": "np.meshgrid(*[np.fft.fftshift(np.fft.fftfreq(s,d=1.0))forsinshape],indexing='ij')",
+        "r": "np.sqrt(sum((f**2forfinfreqs)))",
+        "nlabels": "labels.max()",
+        "f0": "np.fft.fftshift(fftn(img0))",
+        "f1": "np.fft.fftshift(fftn(img1))",
+        "cov": "f0.real*f1.real+f0.imag*f1.imag",
+        "pw0": "f0.real**2+f0.imag**2",
+        "pw1": "f1.real**2+f1.imag**2",
+    }
+    for name, want in chk.items():
+        got = _unparse_norm(assign_rhs(fn, name))
+        if got != want:
+            raise SelectorMiss(f"{name} = {got}")
+    out = _unparse_norm(assign_rhs(fn, "out", 1))
+    if out != "radial_sum(cov)/np.sqrt(radial_sum(pw0)*radial_sum(pw1))":
+        raise SelectorMiss("out = " + out)
+    rs = func(fn, "radial_sum")
+    if _unparse_norm(ret(rs)) != "sum_labels(arr,labels=labels,index=np.arange(0,nlabels))":
+        raise SelectorMiss("radial_sum")
+    return True
+
+
+add("fscIsNormalisedCrossSpectrum", "Fsc", ["C17"], "acryo/_utils.py", "const", [],
+    pattern(_fsc_structure))
+add("fscDefaultDfreq", "Fsc", ["C17"], "acryo/loader/_base.py", "expr", [("minshape", I)],
+    lambda t: assign_rhs(func(t, "LoaderBase.fsc_with_halfmaps"), "dfq").body,
+    subst={"min(output_shape)": "minshape"})
+
+
+def _fsc_loader_structure(t):
+    fn = func(t, "LoaderBase.fsc_with_halfmaps")
+    src = _unparse_norm(fn)
+    need = ["halves=self.average_split(n_set=n_set,seed=seed,squeeze=False,output_shape=output_shape)",
+            "ifzero_norm:halves[:]-=halves.mean()",
+            "img0,img1=halves[i]",
+            "_utils.fourier_shell_correlation(img0*_mask,img1*_mask,dfreq=dfq)",
+            "ifn_set<=0:raiseValueError"]
+    for n in need:
+        if n not in src.replace("\n", "").replace("    ", ""):
+            raise SelectorMiss("missing: " + n)
+    return True
+
+
+add("fscLoaderUsesMaskedHalves", "Fsc", ["C17"], "acryo/loader/_base.py", "const", [],
+    pattern(_fsc_loader_structure))
